@@ -189,15 +189,31 @@ package roundrobin
 //@   ensures present_iff: result1 <==> (result0 != nil)
 //@   ensures from_pool: result0 != nil ==> (exists i int :: 0 <= i && i < len(servers) && result0 == servers[i])
 
+//@ type StickySession
+//@   immutable cookieName options cookieValue
+//@   setup SetCookieValue
+
+//@ func (*StickySession).StickBackend
+//@   props C11
+//@   requires s != nil && backend != nil && s.cookieValue != nil
+//@   modifies external
+//@   ensures cookie_minted_for_this_backend: calls(s.cookieValue.Get) == 1 && callarg(s.cookieValue.Get, 0, 0) == backend
+//@   ensures cookie_set_on_the_response: calls(SetCookie) == 1 && callarg(SetCookie, 0, 0) == w && before(s.cookieValue.Get, SetCookie)
+//@   at_call SetCookie cookie_carries_the_minted_value: arg1 != nil && arg1.Name == s.cookieName && arg1.Value == callres(s.cookieValue.Get, 0, 0)
+
 //@ func (*RoundRobin).ServeHTTP
 //@   props C02 C11 C20
 //@   requires req != nil
+//@   requires sticky_configured: r.stickySession != nil ==> r.stickySession.cookieValue != nil
 //@   modifies everything
 //@   ensures one_outcome: calls(r.next.ServeHTTP) + calls(r.errHandler.ServeHTTP) == 1
 //@   ensures {C20} writes_nothing_itself: calls(w.WriteHeader) == 0 && calls(w.Write) == 0
 //@   ensures {C20} refusal_is_the_handlers: calls(r.errHandler.ServeHTTP) == 1 ==> callarg(r.errHandler.ServeHTTP, 0, 0) == w && callarg(r.errHandler.ServeHTTP, 0, 1) == req
 //@   at_call r.next.ServeHTTP {C20} same_writer_copied_request: arg0 == w && arg1 != req
 //@   ensures error_only_without_server: calls(r.errHandler.ServeHTTP) == 1 ==> calls(NextServer) == 1 && callres(NextServer, 0, 1) != nil
+//@   ensures {C11} fresh_cookie_for_the_server_chosen: r.stickySession != nil && calls(NextServer) == 1 && callres(NextServer, 0, 1) == nil ==> calls(StickBackend) == 1 && callarg(StickBackend, 0, 1) == callres(NextServer, 0, 0) && callarg(StickBackend, 0, 2) == w
+//@   ensures {C11} pinned_requests_leave_the_rotation_alone: calls(GetBackend) == 1 && callres(GetBackend, 0, 1) ==> calls(NextServer) == 0 && calls(r.errHandler.ServeHTTP) == 0
+//@   ensures {C11} bad_cookies_are_balanced_normally: calls(GetBackend) == 1 && !callres(GetBackend, 0, 1) ==> calls(NextServer) == 1
 //@   at_call r.next.ServeHTTP routed_to_selection: (calls(NextServer) == 1 && callres(NextServer, 0, 1) == nil && arg1.URL == callres(NextServer, 0, 0)) || (calls(NextServer) == 0 && callres(GetBackend, 0, 1) && sameID(arg1.URL, callres(GetBackend, 0, 0)))
 //@   at_call r.next.ServeHTTP {C02,C09,C11,C20} fresh_url: fresh(arg1.URL)
 
